@@ -17,6 +17,9 @@ import TickitModel.Core.Command
 import TickitModel.Core.Zmq
 import TickitModel.Core.Config
 import TickitModel.Core.Flatten
+import TickitModel.Core.Master
+import TickitModel.Core.FailStop
+import TickitModel.Core.Contract
 
 open Lean Tickit
 
@@ -267,6 +270,65 @@ def opConfig (j : Json) : Json :=
               ("select", match selectComponents avail req with | some l => outStrs l | none => Json.str "ValueError"),
               ("inv_conns", outInvConns iw), ("inv_keys", outStrs (akeys iw))]
 
+/-- master bookkeeping: actions -> wakeups after each action (and tick roots for startTick) -/
+def opMaster (j : Json) : Json :=
+  let acts := jarr (jfield j "acts")
+  let rec go (acts : List Json) (s : MSt) (acc : List Json) : List Json :=
+    match acts with
+    | [] => acc.reverse
+    | a :: rest =>
+      let act : MAct := match jstr (jfield a "a") with
+        | "interrupt" => .interrupt (jstr (jfield a "c")) (jint (jfield a "stamp"))
+        | "output" => .output (jstr (jfield a "c")) ((jopt (jfield a "call_at")).map jint)
+        | "start" => .startTick
+        | "update" => .beginUpdate (jstr (jfield a "c"))
+        | _ => .endTick
+      match s.step act with
+      | none => go rest s (Json.mkObj [("enabled", false), ("wake", outChanges s.wake)] :: acc)
+      | some s' =>
+        go rest s' (Json.mkObj [("enabled", true), ("wake", outChanges s'.wake), ("pend", outChanges s'.pend),
+          ("time", toJson s'.tickerTime),
+          ("roots", match s'.ticking with | some r => outStrs r | none => Json.null),
+          ("owed", outStrs s'.owed)] :: acc)
+  Json.arr (go acts {} []).toArray
+
+instance : Inhabited Tree := ⟨.dev ""⟩
+
+partial def jTree (j : Json) : Tree :=
+  match jopt (jfield j "sys") with
+  | some n => .sys (jstr n) ((jarr (jfield j "children")).map jTree)
+  | none => .dev (jstr (jfield j "dev"))
+
+def opFailStop (j : Json) : Json :=
+  let cfg := (jarr (jfield j "tree")).map jTree
+  match failIn "" cfg (jstr (jfield j "target")) (jstr (jfield j "error")) with
+  | none => Json.null
+  | some r => Json.mkObj [("source", r.exc.source), ("error", r.exc.error),
+      ("stopped", outStrs r.stopped), ("errored", Json.arr (r.errored.map Json.str).toArray)]
+
+/-- contract bus acceptor: every action of the trace must be enabled; returns the values delivered -/
+def opContract (j : Json) : Json :=
+  let acts := jarr (jfield j "acts")
+  let rec go (acts : List Json) (b : CBus) (i : Nat) : Json :=
+    match acts with
+    | [] => Json.mkObj [("ok", true), ("delivered", Json.arr (b.delivered.map (fun (k, T, v) => Json.arr #[toJson k, Json.str T, toJson v])).toArray)]
+    | a :: rest =>
+      let act : CAct := match jstr (jfield a "a") with
+        | "produce" => .produce (jstr (jfield a "T")) (jint (jfield a "v"))
+        | "subscribe" => .subscribe (jnat (jfield a "k")) (jstr (jfield a "T"))
+        | _ => .deliver (jnat (jfield a "k")) (jstr (jfield a "T"))
+      match b.step act with
+      | none => Json.mkObj [("ok", false), ("at", toJson i)]
+      | some b' =>
+        -- a delivery must hand over exactly the value the implementation handed over
+        match act with
+        | .deliver k T =>
+          let got := (b'.delivered.getLast?).map (fun e => e.2.2)
+          if got == some (jint (jfield a "v")) then go rest b' (i + 1)
+          else Json.mkObj [("ok", false), ("at", toJson i), ("model_value", match got with | some v => toJson v | none => Json.null)]
+        | _ => go rest b' (i + 1)
+  go acts {} 0
+
 def handleLine (line : String) : String :=
   match Json.parse line with
   | .error e => (Json.mkObj [("err", "parse:" ++ e)]).compress
@@ -282,6 +344,9 @@ def handleLine (line : String) : String :=
       | "command" => opCommand j
       | "zmq" => opZmq j
       | "config" => opConfig j
+      | "master" => opMaster j
+      | "failstop" => opFailStop j
+      | "contract" => opContract j
       | "ping" => Json.str "pong"
       | _ => Json.mkObj [("err", "bad-op")]
     r.compress
